@@ -1,7 +1,27 @@
-(* C03 property theorems: statements only; every proof is [exact lemma]. *)
-From Gv Require Import lib.Bytes lib.Json lib.Gql lib.Exec C03.Model C03.Spec C03.ProofsExec C03.ProofsRel C03.ProofsDoc C03.ProofsPasses.
+(* C03 property theorems: statements only; every proof is [exact lemma].
 
-(* remove_self_aliasing: same response with the same fuel whenever the original execution finishes *)
+   "no out-of-fuel" is [oof_b (rs_errs r) = false]; every equation below is an equation between
+   whole responses (data tree and error list) of the reference executor lib/Exec.v in mode Mono,
+   for ALL schemas, universes, documents, operation names, variables and fuels.
+
+   Passes covered by theorems (engine order): directive_include_skip (partial), fragment_spread_inlining,
+   remove_self_aliasing, fragment_definition_removal (partial), field_deduplication.
+   Not covered by theorems (model correspondence + semantic differential only):
+   inline_selections_from_inline_fragments, inline_fragment_selection_merging; the variable passes
+   are covered by the semantic differential only. *)
+From Gv Require Import lib.Bytes lib.Json lib.Gql lib.Exec C03.Model C03.Spec
+     C03.ProofsExec C03.ProofsRel C03.ProofsDoc C03.ProofsPasses C03.ProofsDedup C03.ProofsMono
+     C03.ProofsCompose C03.Examples C03.ProofsRefute.
+
+(* ---- the executor: fuel only decides whether an execution finishes ---- *)
+Theorem c03_execute_fuel_monotone :
+  forall (S : schema) (U : universe) (d : document) (opn : option name) (v : json) (f f' : nat),
+    (f <= f')%nat -> oof_b (rs_errs (execute f S U Mono d opn v)) = false ->
+    execute f' S U Mono d opn v = execute f S U Mono d opn v.
+Proof. exact execute_mono. Qed.
+Print Assumptions c03_execute_fuel_monotone.
+
+(* ---- remove_self_aliasing ---- *)
 Theorem c03_self_alias_preserves_exec :
   forall (S : schema) (U : universe) (d : document) (fuel : nat) (opn : option name) (v : json),
     oof_b (rs_errs (execute fuel S U Mono d opn v)) = false ->
@@ -13,7 +33,7 @@ Theorem c03_self_alias_idempotent : forall d : document, self_alias (self_alias 
 Proof. exact self_alias_idempotent. Qed.
 Print Assumptions c03_self_alias_idempotent.
 
-(* fragment_spread_inlining *)
+(* ---- fragment_spread_inlining ---- *)
 Theorem c03_frag_inline_preserves_exec :
   forall (S : schema) (U : universe) (d : document) (fuel : nat) (opn : option name) (v : json),
     oof_b (rs_errs (execute fuel S U Mono d opn v)) = false ->
@@ -21,8 +41,20 @@ Theorem c03_frag_inline_preserves_exec :
 Proof. exact frag_inline_preserves_exec. Qed.
 Print Assumptions c03_frag_inline_preserves_exec.
 
-(* directive_include_skip, for requests whose conditions the pass reads like the executor and where
-   no selection set is emptied (no placeholder is inserted) *)
+Theorem c03_frag_inline_idempotent_partial :
+  forall (S : schema) (d : document),
+    ops_spread_free (frag_inline S d) = true -> frag_inline S (frag_inline S d) = frag_inline S d.
+Proof. exact frag_inline_idempotent_partial. Qed.
+Print Assumptions c03_frag_inline_idempotent_partial.
+
+Theorem c03_frag_inline_idempotent_refuted :
+  exists (S : schema) (d : document), frag_inline S (frag_inline S d) <> frag_inline S d.
+Proof. exact frag_inline_idempotent_refuted. Qed.
+Print Assumptions c03_frag_inline_idempotent_refuted.
+
+(* ---- directive_include_skip ----
+   hypothesis [include_skip_ok]: the pass reads every @skip/@include condition like the executor
+   (a JSON boolean, else the variable's default) and empties no selection set *)
 Theorem c03_include_skip_preserves_exec_partial :
   forall (S : schema) (U : universe) (d : document) (fuel : nat) (opn : option name) (v : json),
     (forall o, pick_op d opn = Some o ->
@@ -31,3 +63,63 @@ Theorem c03_include_skip_preserves_exec_partial :
     execute fuel S U Mono (include_skip (obj_members v) d) opn v = execute fuel S U Mono d opn v.
 Proof. exact include_skip_preserves_exec_partial. Qed.
 Print Assumptions c03_include_skip_preserves_exec_partial.
+
+Theorem c03_include_skip_preserves_exec_refuted :
+  exists S U d fuel opn v,
+    oof_b (rs_errs (execute fuel S U Mono d opn v)) = false /\
+    execute fuel S U Mono (include_skip (obj_members v) d) opn v <> execute fuel S U Mono d opn v /\
+    resp_equiv (execute fuel S U Mono d opn v) (execute fuel S U Mono (include_skip (obj_members v) d) opn v) = true.
+Proof. exact include_skip_preserves_exec_refuted. Qed.
+Print Assumptions c03_include_skip_preserves_exec_refuted.
+
+Theorem c03_include_skip_idempotent :
+  forall (jv : list (bytes * json)) (d : document), include_skip jv (include_skip jv d) = include_skip jv d.
+Proof. exact include_skip_idempotent. Qed.
+Print Assumptions c03_include_skip_idempotent.
+
+(* ---- fragment_definition_removal ---- *)
+Theorem c03_remove_frag_defs_preserves_exec_partial :
+  forall (S : schema) (U : universe) (d : document) (fuel : nat) (opn : option name) (v : json),
+    ops_spread_free d = true ->
+    oof_b (rs_errs (execute fuel S U Mono d opn v)) = false ->
+    execute fuel S U Mono (remove_frag_defs d) opn v = execute fuel S U Mono d opn v.
+Proof. exact remove_frag_defs_preserves_exec. Qed.
+Print Assumptions c03_remove_frag_defs_preserves_exec_partial.
+
+Theorem c03_remove_frag_defs_idempotent : forall d : document, remove_frag_defs (remove_frag_defs d) = remove_frag_defs d.
+Proof. exact remove_frag_defs_idempotent. Qed.
+Print Assumptions c03_remove_frag_defs_idempotent.
+
+(* ---- field_deduplication ---- *)
+Theorem c03_dedup_preserves_exec :
+  forall (S : schema) (U : universe) (d : document) (fuel : nat) (opn : option name) (v : json),
+    oof_b (rs_errs (execute fuel S U Mono d opn v)) = false ->
+    execute fuel S U Mono (dedup d) opn v = execute fuel S U Mono d opn v.
+Proof. exact dedup_preserves_exec. Qed.
+Print Assumptions c03_dedup_preserves_exec.
+
+Theorem c03_dedup_idempotent : forall d : document, dedup (dedup d) = dedup d.
+Proof. exact dedup_idempotent. Qed.
+Print Assumptions c03_dedup_idempotent.
+
+(* ---- the proved passes composed in engine order ----
+   norm_proved S jv d = dedup (remove_frag_defs (self_alias (frag_inline S (include_skip jv d)))) *)
+Theorem c03_norm_preserves_exec_partial :
+  forall (S : schema) (U : universe) (d : document) (opn : option name) (v : json),
+    (forall o, pick_op d opn = Some o ->
+               include_skip_ok (obj_members v) (effective_vars o (obj_members v)) d = true) ->
+    ops_spread_free (frag_inline S (include_skip (obj_members v) d)) = true ->
+    forall fuel fuel' : nat,
+      oof_b (rs_errs (execute fuel S U Mono d opn v)) = false ->
+      oof_b (rs_errs (execute fuel' S U Mono (norm_proved S (obj_members v) d) opn v)) = false ->
+      execute fuel' S U Mono (norm_proved S (obj_members v) d) opn v = execute fuel S U Mono d opn v.
+Proof. exact norm_preserves_exec_partial. Qed.
+Print Assumptions c03_norm_preserves_exec_partial.
+
+(* the hypotheses are satisfiable by a request with a redex of every proved pass *)
+Theorem c03_example_hypotheses :
+  (forall o, pick_op d0 (Some n_Q) = Some o ->
+             include_skip_ok (obj_members (JObj [])) (effective_vars o (obj_members (JObj []))) d0 = true) /\
+  ops_spread_free (frag_inline S0 (include_skip (obj_members (JObj [])) d0)) = true.
+Proof. exact ex_hypotheses. Qed.
+Print Assumptions c03_example_hypotheses.
